@@ -21,7 +21,7 @@ import (
 
 func init() {
 	Register(&Property{ID: "C09", Run: runC09,
-		Rule: "one real engine under the adversarial workload; 30-70% of the peer's frames are corrupted in flight (bit flips, byte deletion/insertion/duplication, field deletion/duplication/reordering, empty values, BodyLength huge/negative/zero/off-by-one, truncation, XMLData length/value mismatch, garbage between frames, corrupted first message of a connection), with and without dictionaries (FIX42, FIX44, FIXT11+FIX50SP2), both roles; liveness probe after the garbage; riding along (no schedule or fault of their own): every corrupted frame and truncations of it through ParseMessage(+dictionaries) and the typed accessors incl. GetGroup, damaged settings text through ParseSettings, damaged and hand-made odd dictionary XML through datadictionary.ParseSrc, acceptors/initiators built from absurd setting values. Non-trivial: at least 3 corrupted frames reached the engine and a liveness probe succeeded afterwards; distinct: canonical trace hash"})
+		Rule: "one real engine under the adversarial workload; 30-70% of the peer's frames are corrupted in flight (bit flips, byte deletion/insertion/duplication, field deletion/duplication/reordering, empty values, BodyLength huge/negative/zero/off-by-one, truncation, XMLData length/value mismatch, garbage between frames, corrupted first message of a connection), with and without dictionaries (FIX42, FIX44, FIXT11+FIX50SP2), both roles; liveness probe after the garbage; riding along (no schedule or fault of their own): every corrupted frame and truncations of it through ParseMessage(+dictionaries) and the typed accessors incl. GetGroup, damaged settings text through ParseSettings, damaged and hand-made odd dictionary XML through datadictionary.ParseSrc, acceptors/initiators built from absurd setting values; dictionaries that load are validated against; tasks sharing one message under the cooperative scheduler (codec locks as scheduling points). Non-trivial: at least 3 corrupted frames reached the engine and a liveness probe succeeded afterwards; distinct: canonical trace hash"})
 }
 
 func corruptFrame(env *Env, b []byte) []byte {
